@@ -756,7 +756,11 @@ impl<T> TooDee<T> {
     {
         assert!(index < self.num_rows);
         let start = index * self.num_cols;
-        let drain = self.data.drain(start..start + self.num_cols);
+        // Move the row to the end of the array before draining it. `Vec::drain` truncates the
+        // `Vec` to the start of the drained range until the `Drain` is dropped, so draining the
+        // last row keeps the length equal to `num_cols * num_rows` even if the `Drain` is leaked.
+        self.data[start..].rotate_left(self.num_cols);
+        let drain = self.data.drain(self.data.len() - self.num_cols..);
         self.num_rows -= 1;
         if self.num_rows == 0 {
             self.num_cols = 0;
